@@ -175,6 +175,16 @@ def spec_builtin(I, st, name, args, kwargs, node):
         from . import asyncio_model
         which = node.args[0].value if node.args else "time"
         return asyncio_model.clock_value(I, st, which, old=st.in_old and st.old_heap is None)
+    if name == "dec":
+        from . import builtins_model
+        return mkreal(builtins_model.real_of_str(args[0].term))
+    if name == "strp":
+        from . import builtins_model
+        return Val("DT", builtins_model.dt_of_str(args[0].term))
+    if name == "wsum":
+        lst, b, n = args
+        items = I.list_items(st, lst)
+        return mkreal(prelude.wsum_fn(items.sort())(items, b.term, n.term))
     if name == "stages_in_order":
         from . import asyncio_model
         return mkbool(asyncio_model.stages_in_order(I, st, node.args[0].value, args[1], args[2:]))
